@@ -64,3 +64,13 @@ def akai_entry_namesake(what, case, detail):
 def akai_unencodable_tuning(what, case, detail):
     """D16: root key + tuning offset below MIDI note 0 cannot be written to the smpl chunk."""
     return what == "export finishes without exception" and isinstance(case, dict) and case.get("unencodable_tuning") is True
+
+
+def fir_history_from_new_block_only(what, case, detail):
+    """D9: FirFilter.process keeps x[-(N-1):] of the NEW block only: a FIR filter (generic, ChickenSys
+    custom, or the two FIR presets) fed a block shorter than N-1 loses history (split output / sample
+    count differ), and a one-tap FIR keeps the whole block (x[-0:]) so the flush repeats it.  Only the
+    split-independence and sample-count checks are excused, and only on such a case."""
+    return isinstance(case, dict) and case.get("d9_shape") is True and what in (
+        "block-wise output followed by flush equals one-block output followed by flush",
+        "number of output samples equals number of input samples")
